@@ -9,6 +9,7 @@ import (
 	"net"
 	"os"
 	"path/filepath"
+	"strings"
 	"time"
 
 	"github.com/cbeuw/Cloak/internal/client"
@@ -156,6 +157,8 @@ type ClientParams struct {
 	UDP        bool   `json:"udp,omitempty"`
 	SkewMS     int64  `json:"skew_ms,omitempty"` // client clock against the bubble clock
 	SessionID  uint32 `json:"session_id"`
+	CDNOriginHost string `json:"cdn_origin_host,omitempty"`
+	CDNWsUrlPath  string `json:"cdn_ws_url_path,omitempty"`
 }
 
 // ClientConfig runs the real configuration path (RawConfig -> ProcessRawConfig).
@@ -165,6 +168,11 @@ func (w *SrvWorld) ClientConfig(p ClientParams, rng *rand.Rand) (client.LocalCon
 		UDP: p.UDP, BrowserSig: p.Browser, Transport: p.Transport}
 	if raw.ServerName == "" {
 		raw.ServerName = "www.bing.com"
+	}
+	if strings.EqualFold(p.Transport, "cdn") {
+		raw.RemoteHost = "10.0.0.8" // the CDN edge
+		raw.CDNOriginHost = p.CDNOriginHost
+		raw.CDNWsUrlPath = p.CDNWsUrlPath
 	}
 	skew := time.Duration(p.SkewMS) * time.Millisecond
 	ws := common.WorldState{Rand: rngReader{rng}, Now: func() time.Time { return time.Now().Add(skew) }}
